@@ -85,6 +85,9 @@ func (kt *kindTable) decodeOutcomes(k int64, nullable bool) []decodeOutcome {
 }
 
 func checkC06(p *Prog, r *Report) {
+	r.rule("C06.impl.* (imported from C17): SoftResource.Set and Wrapper.setField store exactly the value they are given and Get returns it as stored")
+	nImpl := r.importRules(func(r2 *Report) { checkSoftGetSet(p, r2); checkWrapperGetSet(p, r2) }, "C06.impl", "C17.set-stores-given", "C17.get-returns-stored")
+	r.floor("imported Get/Set obligations", nImpl, 4)
 	r.rule("C06.partial-presence (imported from C13.presence): the partial function adds a relationship exactly when its object carries a data member (a null linkage included), so the relationships listed in an accepted payload are all held by the result")
 	nPP := r.importRules(func(r2 *Report) { checkC13(p, r2) }, "C06.partial-presence", "C13.presence")
 	r.floor("imported presence obligations", nPP, 1)
